@@ -699,13 +699,13 @@ func liberalOK(s string) bool {
 	p.gap()
 	st := p.i
 	name := p.run(func(c byte) bool { return isAlnum(c) || c == '.' || c == '-' })
-	// the parser takes a matching prefix of the name-like run; a liberal reader may take any
+	// the name is the longest prefix of the name-like run that is a well-formed name (as every tokeniser takes
+	// it), and it is at most 255 bytes long: a reader that stops earlier reinterprets the rest of the name as
+	// member text
 	for n := len(name); n > 0; n-- {
 		pre := name[:n]
-		if len(pre) <= 255 && (ifaceRx.MatchString(pre) || xnRx.MatchString(pre)) {
-			if membersL(s, st+n, nil, 0) {
-				return true
-			}
+		if ifaceRx.MatchString(pre) || xnRx.MatchString(pre) {
+			return len(pre) <= 255 && membersL(s, st+n, nil, 0)
 		}
 	}
 	return false
